@@ -235,7 +235,11 @@ class MemoryWorkflowStore(AbstractWorkflowStore):
                     continue
 
             for event in batch:
-                yield event
                 cursor += 1
+                if event.sequence <= after_sequence:
+                    # Appended after a subscription whose cursor was beyond the
+                    # end of the log: still not "after" the requested sequence.
+                    continue
+                yield event
                 if self._is_terminal_event(event):
                     return
